@@ -13,7 +13,8 @@ From Coq Require Import List Ascii ZArith Bool.
 From CGV Require Import Base.PyBase Base.PyVal Base.NxGraph Gen.WriterGen Dialect.DialectImpl Write.WriteImpl Write.FragDefs
      Write.FragCheck Write.FormatBondingSpec.
 From CGV Require Import Frag.NDict Frag.StripImpl Frag.FragText Write.FormatStripRound.
-From CGV Require Import Write.WriteProofs Write.PathRound Write.FragRead Write.CoarseChain Write.CoarseFrags Reader.Grammar Reader.ReaderImpl.
+From CGV Require Import Write.WriteProofs Write.PathRound Write.FragRead Write.CoarseChain Write.CoarseFrags Write.CoarseGraph Reader.Grammar Reader.ReaderImpl.
+From CGV Require Import Write.WriteDefs Write.TreeDefs Write.TreeRound Write.RingRound Write.FullMachine Write.FullRound Write.FullDomain Reader.Lin.
 Import ListNotations.
 Open Scope Z_scope.
 
@@ -119,6 +120,48 @@ Example C08_coarse_fragments_nonvacuous :
              (read_coarse_fragments (fun _ => None) (S "{#X=[#A][$a]=[>]=[#B].[!x].[#PEO][#A]#[<],#PEO=[#PEO][<][#PEO][>]}")) = true.
 Proof. exact coarse_fragments_example. Qed.
 
+(** coarse fragment graphs of ANY shape (branches, rings), unbounded.  The fragment graph is a graph g of C07's domain
+    (names) without aromatic flags, decorated with a descriptor list per node ([decorate_graph F D g]: the attributes
+    read_fragment_cgsmiles builds).  For the DFS tree T the writer uses, with [items] the writer's item list and
+    [dl] = items paired with the descriptors in the order of writing: IF the decorated item list is a text of the
+    strip grammar ([dl_wf]: decidable; what it asks beyond what always holds is that no bond symbol is written
+    directly before "(", i.e. branch edges are single bonds -- the strip grammar has no symbol there), THEN
+    write_graph(name_attr='atomname') returns a text that the strip model splits into the clean text and the
+    descriptor dict {i: descriptors of the i-th written node}, the reader model reads the clean text as a graph
+    isomorphic to g ([graph_iso], C07's machinery), and the model of the coarse branch of fragment_iter returns
+    that graph post-processed with exactly this dict. *)
+Theorem C08_coarse_graph_roundtrip : forall fo a0 dh F (D : Z -> list dspec) g tr,
+  fragment_node_parser fo [] = Ok a0 ->
+  wf_C07 g = true -> (forall n, In n g -> aget (S "aromatic") (na n) = None) ->
+  ring_contract g (dfs_tree g) tr = true ->
+  (forall k, forallb d_ok (D k) = true) ->
+  exists T, NoDup (rkeys T) /\ (forall x, In x (rkeys T) <-> In x (node_keys g)) /\
+    let items := the_items (name_of g) (esym_of g) (rsym_of g tr) T tr in
+    let dl := combine items (map D (worder T)) in
+    (dl_wf ZStart 0 dl = true ->
+     exists txt h, write_graph_by (S "atomname") false dh (decorate_graph F D g) tr = Ok txt
+       /\ strip_bonding_descriptors fo txt = Ok (lins_str items, ddict 0 dl [], [], adict a0 0 dl [])
+       /\ read_cgsmiles fo (lins_str items) = Ok h
+       /\ graph_iso (fun k => base_attrs (name_of g k)) g h
+       /\ read_coarse_fragment fo F txt = Ok (post_fragment F h (ddict 0 dl []) (adict a0 0 dl []))).
+Proof. exact coarse_graph_roundtrip. Qed.
+(** non-vacuity: a fragment with a branch, a ring closed by a double bond, a double bond on the chain, descriptors of
+    three kinds and of orders 1, 2, 0: hypotheses hold, the text, and what is read back *)
+Example C08_coarse_graph_nonvacuous :
+  wf_C07 ex_cg = true /\ ring_contract ex_cg (dfs_tree ex_cg) ex_ctr = true /\ dfs_edges ex_cg 0 = Ok (redges ex_cT)
+  /\ dl_wf ZStart 0 (combine (the_items (name_of ex_cg) (esym_of ex_cg) (rsym_of ex_cg ex_ctr) ex_cT ex_ctr) (map ex_cD (worder ex_cT))) = true
+  /\ write_graph_by (S "atomname") false (fun _ => true) (decorate_graph (S "X") ex_cD ex_cg) ex_ctr
+     = Ok (S "[#A][$a]=1=[#B]([#PEO]=[>].[!x])[#C]1")
+  /\ match read_coarse_fragment (fun _ => None) (S "X") (S "[#A][$a]=1=[#B]([#PEO]=[>].[!x])[#C]1") with
+     | Ok h => map (fun n => (nk n, aget (S "atomname") (na n), aget (S "bonding") (na n), aget (S "fragname") (na n), map fst (nadj n))) h
+               = [(0, Some (VStr (S "A")), Some (VList [VStr (S "$a1")]), Some (VStr (S "X")), [1; 3]);
+                  (1, Some (VStr (S "B")), None, Some (VStr (S "X")), [0; 2; 3]);
+                  (2, Some (VStr (S "PEO")), Some (VList [VStr (S ">2"); VStr (S "!x0")]), Some (VStr (S "X")), [1]);
+                  (3, Some (VStr (S "C")), None, Some (VStr (S "X")), [1; 0])]
+     | Err _ => False
+     end.
+Proof. exact coarse_graph_example. Qed.
+
 Theorem C08_descriptors_on_atom0 : forall L : list dspec, L <> [] ->
   fold_left (fun d x => nd_append 0 (d_stored x) d) L [] = [(0%nat, map d_stored L)].
 Proof. exact descs_on_atom0. Qed.
@@ -141,4 +184,5 @@ Print Assumptions C08_coarse_chain_roundtrip.
 Print Assumptions C08_write_coarse_fragments.
 Print Assumptions C08_split_coarse_fragments.
 Print Assumptions C08_coarse_fragments_roundtrip.
+Print Assumptions C08_coarse_graph_roundtrip.
 Print Assumptions C08_descriptors_on_atom0.
